@@ -364,6 +364,15 @@ def run_case(case):
             case["_pos"], case["_prev_n"], case["_hist"] = pos, prev, hist[-6:]
             if fam == "history-func":
                 f = FUNCS[int(rng.integers(0, len(FUNCS)))]
+                if n is not None and n <= 20 and rng.random() < .15:
+                    # an iterated integral done with one object: the integrand integrates over another interval with the
+                    # same QGauss (and the same number of points) before the outer sum is formed
+                    nin, inner = n, FUNCS[int(rng.integers(0, len(FUNCS)))]
+                    shift = float(rng.uniform(0.5, 3.0))
+
+                    def f(x, _q=qg, _n=nin, _g=inner, _s=shift):
+                        return np.array([_q.integrate([0.0, _s + abs(float(t))], _g, npts=_n) for t in np.atleast_1d(x)])
+                    f.__name__ = "nested_" + inner.__name__
                 a, b = interval(["unit", "neg", "random", "reversed"][int(rng.integers(0, 4))], rng)
                 hist.append(["func", f.__name__, a, b, n])
                 rr = rng.random()
@@ -383,6 +392,10 @@ def run_case(case):
                 if rng.random() < .35:
                     # the same table in other units (1e-14 .. 1e+12), starting at 0: the rule must scale with the interval
                     xt = (xt - xt[0]) * 10.0 ** float(rng.integers(-14, 13))
+                if rng.random() < .2:
+                    # whole-number tables stored in integer (also unsigned) and float32 dtypes
+                    xt = np.sort(rng.choice(np.arange(60, 250), size=m, replace=False)).astype(str(rng.choice(["u1", "u2", "i2", "i8", "u8", "f4"])))
+                    yt = rng.integers(0, 200, size=m).astype(str(rng.choice(["u1", "i4", "f8", "f4"])))
                 hist.append(["data", m, n])
                 xt, yt = gen.maybe_view(rng, xt), gen.maybe_view(rng, yt)
                 if rng.random() < .8:
